@@ -74,6 +74,11 @@ def run(ctx):
     c05.seed_truthiness(ctx, "C15.R10")
     r11_arm_agreement(ctx, ctx.fn(SAF, "SafeLearner._parse_pred"))
     r12_fresh_wrapper(ctx)
+    # the action sampled from a PMF answer has positive probability and travels with its own entry
+    ctx.rule("C15.R13", "sampling a PMF answer: CobaRandom.choice returns the first item whose cumulative weight strictly exceeds U*tot (an action of probability 0 is "
+                        "never played) and choicew pairs the sampled item with the weight at the same index")
+    c05.weighted_choice(ctx, "C15.R13")
+    c05.choicew_pairs(ctx, "C15.R13")
 
 
 def _is_identity_any(e, actions_name):
@@ -535,6 +540,8 @@ def _body_of(st):
 
 
 CONTROLS = [
+    ("weighted choice by left bisection", "coba/random.py", M.replace_expr("CobaRandom.choice", "next(compress(seq, map((next(self._randu) * tot).__lt__, accumulate(weights))))",
+                                                                           "seq[__import__('bisect').bisect_left(list(accumulate(weights)), next(self._randu) * tot)]"), "C15.R13"),
     ("dict hints read before the identity test", SAF, M.delete_stmt("SafeLearner.pred_format", M.text_has("if actions and any((std_pred is action for action in actions)): return 'AX'")), "C15.R8"),
     ("re-wrapping inherits the probed layout", SAF, M.replace_stmt("SafeLearner.__init__", M.simple_has("self._pred_batch = None"), "self._pred_batch = learner._pred_batch if isinstance(learner, SafeLearner) else None"), "C15.R12"),
     ("column arm keeps the (payload, kwargs) wrapper", SAF, M.replace_expr("SafeLearner._parse_pred", "(pred[0] if len(pred) == 2 else pred[:-1]) if self._pred_kwargs else pred", "pred[:-1] if self._pred_kwargs else pred"), "C15.R11"),
